@@ -57,8 +57,8 @@ def gen(ctx, seed, tier):
     r = ctx.rng("gen", seed)
     quick = tier == "quick"
     cases = []
-    plan = {64: (140, 30) if quick else (900, 200), 128: (40, 8) if quick else (250, 50),
-            256: (16, 4) if quick else (100, 20), 4096: (4, 2) if quick else (30, 10)}
+    plan = {64: (140, 30) if quick else (2700, 500), 128: (40, 8) if quick else (750, 120),
+            256: (16, 4) if quick else (300, 50), 4096: (4, 2) if quick else (60, 16)}
     for page, (nprobe, nrem) in plan.items():
         for j in range(nprobe + nrem):
             h = bt.gen_history(r, page, tier, flags="2", walks=False, allow_oracle=False)
@@ -74,6 +74,20 @@ def gen(ctx, seed, tier):
                 # absent key: next is unconstrained, tree unchanged
                 cases.append("%d 2 %s r%d w" % (page, " ".join(base), (max(h.keys) + 2) if h.keys else 3))
     return cases
+
+
+def targeted(ctx):
+    """directed cases for the search: dense trees at every page size, every key and gap probed, every element removed"""
+    out = []
+    r = ctx.rng("targeted")
+    for page, n in ((64, 120), (128, 300), (256, 700)):
+        keys = [3 * k for k in range(1, n + 1)]
+        for order in (keys, keys[::-1]):
+            base = " ".join("i%d.%d" % (k, j + 1) for j, k in enumerate(order))
+            out.append("%d 2 %s w %s" % (page, base, " ".join(probe_ops(r, set(keys), dense_limit=3 * n + 10))))
+            for k in keys[::max(1, n // 120)]:
+                out.append("%d 2 %s r%d w" % (page, base, k))
+    return out
 
 
 def run_impl(ctx, cases):
